@@ -99,13 +99,17 @@ def race(base, backends, timeout, extra_jobs=()):
     scripts = []
     pre = f'ulimit -v {MEM_KB}; '
     t0 = time.time()
+    # the SMT back ends write their problem files to TMPDIR and leave them behind when they lose the race and are killed (hundreds of MB
+    # each): every race gets its own temporary directory, removed when the race is over
+    tmpd = tempfile.mkdtemp(prefix='vrace-')
+    env = dict(os.environ, TMPDIR=tmpd)
     for be, argv in [(be, base + BACKENDS[be]) for be in backends] + list(extra_jobs):
         f = tempfile.TemporaryFile()
         script = tempfile.NamedTemporaryFile('w', suffix='.sh', delete=False)   # a single argv string is limited to 128 KiB
         script.write(pre + 'exec ' + ' '.join(shquote(c) for c in argv) + '\n')
         script.close()
         scripts.append(script.name)
-        procs.append([be, subprocess.Popen(['bash', script.name], stdout=f, stderr=subprocess.STDOUT, start_new_session=True), f])
+        procs.append([be, subprocess.Popen(['bash', script.name], stdout=f, stderr=subprocess.STDOUT, start_new_session=True, env=env), f])
         ACTIVE.add(procs[-1][1])
     try:
         pending = list(procs)
@@ -131,6 +135,8 @@ def race(base, backends, timeout, extra_jobs=()):
                 kill_tree(p)
             ACTIVE.discard(p)
             f.close()
+        import shutil
+        shutil.rmtree(tmpd, ignore_errors=True)
         for sc in scripts:
             try:
                 os.unlink(sc)
